@@ -2,21 +2,22 @@
 (* Environment model for EventsBuffer (pattern S): TLC enumerates every scenario               *)
 (*   DAG shape over N events (parents among lower-numbered events, at most MaxParents),         *)
 (*   every push order, optional duplicate pushes (at most MaxDup extra pushes),                 *)
-(*   one optional failing Check or Process callback at any event, and a limit from Limits.      *)
+(*   one optional failing Check or Process callback at any event, a limit from Limits, and       *)
+(*   event sizes (all equal, or one event much bigger than the others).                         *)
 (* Each complete scenario (every event pushed at least once) is emitted once as a "SCEN" line;  *)
 (* the harness executes it on the real buffer and the recorded trace is validated against       *)
 (* EventsBuffer.tla.                                                                             *)
 EXTENDS Integers, Sequences, FiniteSets, TLC, Json
 
-CONSTANTS MaxN, MaxParents, MaxDup, Limits, Sizes
-VARIABLES n, par, order, fail, limit, size
+CONSTANTS MaxN, MaxParents, MaxDup, Limits, Sizes, BigSize, FailKinds
+VARIABLES n, par, order, fail, limit, size, big
 
-svars == <<n, par, order, fail, limit, size>>
+svars == <<n, par, order, fail, limit, size, big>>
 
 Shapes(k) == {p \in [1..k -> SUBSET (1..k)] : \A i \in 1..k : p[i] \subseteq 1..(i-1) /\ Cardinality(p[i]) <= MaxParents}
 SetToSeq(S) == LET RECURSIVE F(_) F(X) == IF X = {} THEN <<>> ELSE LET m == CHOOSE x \in X : \A y \in X : x <= y IN <<m>> \o F(X \ {m}) IN F(S)
 
-Fails(k) == {[kind |-> "none", ev |-> 0]} \cup {[kind |-> kd, ev |-> e] : kd \in {"check", "process"}, e \in 1..k}
+Fails(k) == {[kind |-> "none", ev |-> 0]} \cup {[kind |-> kd, ev |-> e] : kd \in FailKinds, e \in 1..k}
 
 Init == /\ n \in 1..MaxN
         /\ par \in Shapes(n)
@@ -24,18 +25,20 @@ Init == /\ n \in 1..MaxN
         /\ fail \in Fails(n)
         /\ limit \in Limits
         /\ size \in Sizes
+        /\ big \in IF BigSize = 0 THEN {0} ELSE 0..n        \* at most one event (0 = none) has the big size
 
 Count(e) == Cardinality({i \in 1..Len(order) : order[i] = e})
 Push(e) == /\ e \in 1..n
            /\ \/ Count(e) = 0
               \/ Count(e) = 1 /\ Len(order) - Cardinality({order[i] : i \in 1..Len(order)}) < MaxDup
            /\ order' = Append(order, e)
-           /\ UNCHANGED <<n, par, fail, limit, size>>
+           /\ UNCHANGED <<n, par, fail, limit, size, big>>
 Next == \E e \in 1..n : Push(e)
 Spec == Init /\ [][Next]_svars
 
 CompleteScen == {order[i] : i \in 1..Len(order)} = 1..n
 EmitScen == CompleteScen =>
   PrintT(<<"EDGE", ToJson([n |-> n, parents |-> [i \in 1..n |-> SetToSeq(par[i])], order |-> order,
-                            fail |-> fail, limit |-> limit, size |-> size])>>)
+                            fail |-> fail, limit |-> limit, size |-> size,
+                            sizes |-> [i \in 1..n |-> (IF i = big THEN BigSize ELSE size) + Cardinality(par[i])]])>>)
 =============================================================================
